@@ -11,6 +11,7 @@ import (
 	"sort"
 	"strconv"
 	"strings"
+	"sync"
 	"time"
 
 	"amverif/codec"
@@ -1067,6 +1068,12 @@ func cmdSchemas(tier string, seed int64, driver, out, result string, search bool
 		walks *= 4
 	}
 	var cases []core.Case
+	type reachJob struct {
+		id     string
+		sch    *core.Schema
+		groups map[string][]int
+	}
+	var reachJobs []reachJob
 	r := rand.New(rand.NewSource(seed))
 	toInts := func(v any) []int {
 		var o []int
@@ -1127,6 +1134,7 @@ func cmdSchemas(tier string, seed int64, driver, out, result string, search bool
 			sch.Defs[i].Require = rq
 		}
 		sch.Alpha = core.ComputeAlpha(sch.Names)
+		reachJobs = append(reachJobs, reachJob{id: s.Id, sch: sch, groups: s.Groups})
 		var gparts []string
 		for g, l := range s.Groups {
 			gparts = append(gparts, g+":"+core.ShowList(l))
@@ -1165,7 +1173,42 @@ func cmdSchemas(tier string, seed int64, driver, out, result string, search bool
 		res.Failures = append(res.Failures, core.FailRec{Prop: "C19", Finding: "C19-mixin-undefined-refs:" + u.Schema,
 			Msg: fmt.Sprintf("schema %s references undefined state %s (%v)", u.Schema, u.Name, u.Kinds), File: file})
 	}
-	res.Extra = map[string]any{"schemas": len(meta.Schemas), "uncovered_groups": meta.Uncovered, "skipped": meta.Skipped}
+	// exhaustive breadth-first search over the reachable active sets, on the real machine
+	budget := 6000
+	if tier == "thorough" {
+		budget = 400000
+	}
+	reach := make([]core.ReachResult, len(reachJobs))
+	var rwg sync.WaitGroup
+	sem := make(chan struct{}, 12)
+	for i := range reachJobs {
+		rwg.Add(1)
+		sem <- struct{}{}
+		go func(i int) {
+			defer rwg.Done()
+			defer func() { <-sem }()
+			reach[i] = core.ReachSchema(reachJobs[i].id, reachJobs[i].sch, reachJobs[i].groups, budget)
+		}(i)
+	}
+	rwg.Wait()
+	visited, exhausted := 0, 0
+	var notExhausted []string
+	for i, rr := range reach {
+		visited += rr.Visited
+		res.Evaluations += rr.Visited
+		if rr.Exhausted {
+			exhausted++
+		} else {
+			notExhausted = append(notExhausted, fmt.Sprintf("%s (%d sets visited)", reachJobs[i].id, rr.Visited))
+		}
+		for k, f := range rr.Failures {
+			file := out + fmt.Sprintf("/C19-seed%d-reach-%d-%d.txt", seed, i, k)
+			os.WriteFile(file, []byte("# breadth-first search over the reachable active sets of a shipped schema, real machine\n"+f+"\n"), 0o644)
+			res.Failures = append(res.Failures, core.FailRec{Prop: "C19", Msg: f, File: file})
+		}
+	}
+	res.Extra = map[string]any{"schemas": len(meta.Schemas), "uncovered_groups": meta.Uncovered, "skipped": meta.Skipped,
+		"bfs_active_sets_visited": visited, "bfs_schemas_exhausted": exhausted, "bfs_budget_reached": notExhausted}
 	jb, _ := json.MarshalIndent(res, "", " ")
 	if result != "" {
 		os.WriteFile(result, jb, 0o644)
